@@ -1,6 +1,6 @@
 (* Faithful executable model of dds/_plotting.py:_structure: the graph exported for an evaluation, computed from the
    interaction tree (nodes keyed by signature, solid / dashed / dotted edges, the implicit-edge heuristic). *)
-From Coq Require Import List Ascii String Bool Arith.
+From Coq Require Import List Ascii String Bool Arith NArith.
 From DDS Require Import Base.Bytes L3_Sig.Sig.
 Import ListNotations.
 
@@ -37,9 +37,25 @@ Fixpoint dset (k : bytes * bytes) (v : gedge) (l : list ((bytes * bytes) * gedge
 
 Definition ndeps_of (st : gstate) (k : bytes) : list bytes := match alook k (g_ndeps st) with Some l => l | None => [] end.
 
-(* dict((n.node_hash, n) for ...).values(): one node per signature, first position, last value *)
+(* Python's order on str restricted to byte strings: lexicographic by code point *)
+Fixpoint bytes_ltb (a b : bytes) : bool :=
+  match a, b with
+  | _, [] => false
+  | [], _ :: _ => true
+  | x :: r, y :: s => if N.ltb (N_of_ascii x) (N_of_ascii y) then true
+                      else if N.eqb (N_of_ascii x) (N_of_ascii y) then bytes_ltb r s else false
+  end.
+(* sorted(..., key=lambda n: n.node_hash): stable insertion sort on the signature *)
+Fixpoint insert_node (n : gnode) (l : list gnode) : list gnode :=
+  match l with
+  | [] => [n]
+  | m :: r => if bytes_ltb (snd n) (snd m) then n :: l else m :: insert_node n r
+  end.
+Definition sort_nodes (l : list gnode) : list gnode := fold_left (fun acc n => insert_node n acc) l [].
+
+(* sorted(dict((n.node_hash, n) for ...).values(), key=node_hash): one node per signature (last value), by signature *)
 Definition dedupe_nodes (l : list gnode) : list gnode :=
-  map snd (fold_left (fun acc n => aset (snd n) n acc) l []).
+  sort_nodes (map snd (fold_left (fun acc n => aset (snd n) n acc) l [])).
 
 (* the implicit-edge loop body for one pair (n1, n2) *)
 Definition implicit_pair (sub_set : list bytes) (st : gstate) (n1 n2 : gnode) : gstate :=
